@@ -229,9 +229,17 @@ func init() {
 						s.mon.region("double-crash")
 					}
 					c.Rep.FaultPoints++
-					// recovery: background processing must resume from the stored state
+					// recovery: background processing must resume from the stored state. Sometimes the server stays down
+					// for seconds (several occurrences of a schedule are missed and must be caught up one by one);
+					// whatever the row monitors object to during recovery counts for C06 as well
+					recTicks := 150
+					if r.Intn(3) == 0 {
+						s.now += pick(r, int64(2500), 5000, 12000)
+						recTicks = 1200 // a dozen occurrences to catch up one by one, then their promises to time out
+					}
+					s.mon.alsoProp = "C06"
 					tq := s.now
-					for i := 0; i < 150; i++ {
+					for i := 0; i < recTicks; i++ {
 						s.Tick(s.now + cfg.BgPeriod)
 					}
 					for _, b := range quiescent(s, tq) {
@@ -239,9 +247,10 @@ func init() {
 						if i := indexByte(b, ':'); i > 0 {
 							sig, what = b[:i], b[i+1:]
 						}
-						s.mon.violate("C06", "recovery:"+sig, fmt.Sprintf("crash %s batch %d: after restart and 150 background ticks %s", side, j, what))
+						s.mon.violate("C06", "recovery:"+sig, fmt.Sprintf("crash %s batch %d: after restart and %d background ticks %s", side, j, recTicks, what))
 					}
 					ackLedger(s, "after recovery")
+					s.mon.alsoProp = ""
 					done(s)
 				}
 			}
